@@ -141,9 +141,12 @@ class SdvValidatorFromDdvValidator(SdvValidator):
         self._hds = None
 
     def validate_pre_sds_if_applicable(self, environment: PathResolvingEnvironmentPreSds) -> Optional[TextRenderer]:
+        self._hds = environment.hds
         return self._get_validator(environment.symbols).validate_pre_sds_if_applicable(environment.hds)
 
     def validate_post_sds_if_applicable(self, environment: PathResolvingEnvironmentPostSds) -> Optional[TextRenderer]:
+        if self._hds is None and isinstance(environment, PathResolvingEnvironmentPreSds):
+            self._hds = environment.hds
         tcds = TestCaseDs(self._hds, environment.sds)
         return self._get_validator(environment.symbols).validate_post_sds_if_applicable(tcds)
 
